@@ -147,6 +147,10 @@ class Gen(object):
                 b1, b2 = self.bind(), self.bind()
                 while b2[1] == b1[1]:
                     b2 = (b2[0], self.rng.choice(self.names))
+                if form == 'tuplesub':
+                    # x, g.s[<read>], y = ...: the subscript is evaluated after x is bound and before y is
+                    sub = [(self.new(), b1[1] if self.rng.random() < 0.6 else self.rng.choice(self.names))]
+                    return ('assign', rd, [b1, b2], form, sub)
                 return ('assign', rd, [b1, b2], form)
             if form in ('import', 'from'):
                 return ('assign', [], [self.bind()], form + ':' + self.mods.pop())
@@ -270,6 +274,8 @@ def to_coq(n):
     if k == 'expr':
         return seq(rd_terms(n[1]))
     if k == 'assign':
+        if len(n) > 4:      # tuplesub: reads of the value, first target, subscript reads, second target
+            return seq(rd_terms(n[1]) + bd_terms(n[2][:1]) + rd_terms(n[4]) + bd_terms(n[2][1:]))
         return seq(rd_terms(n[1]) + bd_terms(n[2]))
     if k == 'with':
         return seq(rd_terms(n[1]) + bd_terms(n[2]) + [body_coq(n[3])])
@@ -389,11 +395,12 @@ class Renderer(object):
                     self.emit(ind, '_reg(%r, %s, %d)' % (x, x, d))
             elif form == 'tuplesub':
                 d2, x2 = binds[1]
+                sub = self.args(n[4]) if len(n) > 4 else '0'
                 if ins:
-                    self.emit(ind, '%s, _sub[0], %s = _b(dict(%s=%d)%s), 0, _b(dict(%s=%d))' % (
-                        x, x2, x, d, (', ' + self.args(reads)) if reads else '', x2, d2))
+                    self.emit(ind, '%s, _sub[%s], %s = _b(dict(%s=%d)%s), 0, _b(dict(%s=%d))' % (
+                        x, sub, x2, x, d, (', ' + self.args(reads)) if reads else '', x2, d2))
                 else:
-                    self.emit(ind, '%s, g.s[0], %s = %s, 0, 1' % (self.tgt(d, x), self.tgt(d2, x2), val))
+                    self.emit(ind, '%s, g.s[%s], %s = %s, 0, 1' % (self.tgt(d, x), sub, self.tgt(d2, x2), val))
             elif form == 'walrus':
                 self.emit(ind, '(%s := %s)' % (self.tgt(d, x), val))
             elif form == 'tuple':
